@@ -107,7 +107,7 @@ pub(crate) fn open_chunk_file<T>(_config: &Config, chunk_id: ChunkId) -> Result<
     }
     match gfs::find_chunk(chunk_id.0) {
         Some(s) => gfs::op_open(s),
-        None => Err(io::Error::from(io::ErrorKind::NotFound)),
+        None => Err(mk_err(io::ErrorKind::NotFound)),
     }
 }
 
@@ -198,13 +198,30 @@ pub(crate) fn vec_with_capacity<T>(_capacity: usize) -> Vec<T> {
 // configuration stub the accessor by a ghost constant and tie it to the real
 // field with an assumption; the accessors themselves (field or default) are
 // checked by c10_cfg_accessors.
-pub(crate) static mut CFG_READ_BUF: usize = 0;
+pub(crate) static mut CFG_READ_BUF: usize = 64;
 pub(crate) static mut CFG_TRUNCATE: bool = true;
+pub(crate) static mut CFG_MAX_RECORDS: usize = 1024 * 1024;
+pub(crate) static mut CFG_MAX_SIZE: usize = 1024 * 1024 * 1024;
+pub(crate) static mut CFG_CACHE_ITEMS: usize = 100_000;
+pub(crate) static mut CFG_CACHE_CAP: usize = 1024 * 1024 * 1024;
+
+/// record the configuration a harness chose (the ghost constants default to
+/// raft-log's documented defaults)
+pub(crate) fn cfg_set(c: &Config) {
+    unsafe {
+        CFG_READ_BUF = c.read_buffer_size.unwrap_or(64 * 1024 * 1024);
+        CFG_TRUNCATE = c.truncate_incomplete_record.unwrap_or(true);
+        CFG_MAX_RECORDS = c.chunk_max_records.unwrap_or(1024 * 1024);
+        CFG_MAX_SIZE = c.chunk_max_size.unwrap_or(1024 * 1024 * 1024);
+        CFG_CACHE_ITEMS = c.log_cache_max_items.unwrap_or(100_000);
+        CFG_CACHE_CAP = c.log_cache_capacity.unwrap_or(1024 * 1024 * 1024);
+    }
+}
 
 pub(crate) fn cfg_read_buffer_size(this: &Config) -> usize {
     let v = unsafe { CFG_READ_BUF };
     #[cfg(kani)]
-    kani::assume(this.read_buffer_size == Some(v));
+    kani::assume(this.read_buffer_size.unwrap_or(64 * 1024 * 1024) == v);
     v
 }
 
@@ -213,4 +230,76 @@ pub(crate) fn cfg_truncate_incomplete_record(this: &Config) -> bool {
     #[cfg(kani)]
     kani::assume(this.truncate_incomplete_record.unwrap_or(true) == v);
     v
+}
+
+pub(crate) fn cfg_chunk_max_records(this: &Config) -> usize {
+    let v = unsafe { CFG_MAX_RECORDS };
+    #[cfg(kani)]
+    kani::assume(this.chunk_max_records.unwrap_or(1024 * 1024) == v);
+    v
+}
+
+pub(crate) fn cfg_chunk_max_size(this: &Config) -> usize {
+    let v = unsafe { CFG_MAX_SIZE };
+    #[cfg(kani)]
+    kani::assume(this.chunk_max_size.unwrap_or(1024 * 1024 * 1024) == v);
+    v
+}
+
+pub(crate) fn cfg_log_cache_max_items(this: &Config) -> usize {
+    let v = unsafe { CFG_CACHE_ITEMS };
+    #[cfg(kani)]
+    kani::assume(this.log_cache_max_items.unwrap_or(100_000) == v);
+    v
+}
+
+pub(crate) fn cfg_log_cache_capacity(this: &Config) -> usize {
+    let v = unsafe { CFG_CACHE_CAP };
+    #[cfg(kani)]
+    kani::assume(this.log_cache_capacity.unwrap_or(1024 * 1024 * 1024) == v);
+    v
+}
+
+// ---- io::Error::kind() from ghost state ----
+// std packs an io::Error into a tagged pointer; `kind()` recovers the variant
+// from the low bits of a pointer *address*, which is not a constant for CBMC:
+// every `kind()` call is then explored for all four representations and
+// `io_err.kind() == UnexpectedEof` in `handle_record_error` becomes symbolic
+// (both outcomes explored, `truncate` symbolic, the file length after
+// `set_len` symbolic, ...). The only distinction raft-log ever makes is
+// "UnexpectedEof or not", and in the replayed code an UnexpectedEof error has
+// exactly one origin: std's `read_exact` meeting a 0-byte read. The replay
+// harnesses therefore answer `kind()` from ghost state: the ghost file system
+// raises EOF_SEEN when a sequential read of a non-empty buffer returns 0
+// bytes (and records the kind of the errors it creates itself); opening a
+// chunk file clears it. `io::Error::new(e.kind(), ..)` (the `context`
+// wrappers) preserves the answer. (`io::Error::new` itself cannot be stubbed:
+// it is an incoherent inherent impl in alloc that Kani's resolver does not
+// find.)
+pub(crate) static mut EOF_SEEN: bool = false;
+pub(crate) static mut LAST_ERR: io::ErrorKind = io::ErrorKind::InvalidData;
+
+pub(crate) fn mk_err(kind: io::ErrorKind) -> io::Error {
+    unsafe {
+        LAST_ERR = kind;
+        EOF_SEEN = false;
+    }
+    io::Error::from(kind)
+}
+
+pub(crate) fn reset_err() {
+    unsafe {
+        LAST_ERR = io::ErrorKind::InvalidData;
+        EOF_SEEN = false;
+    }
+}
+
+pub(crate) fn io_error_kind(_this: &io::Error) -> io::ErrorKind {
+    unsafe {
+        if EOF_SEEN {
+            io::ErrorKind::UnexpectedEof
+        } else {
+            LAST_ERR
+        }
+    }
 }
